@@ -485,6 +485,27 @@ pub fn c13_native_kernels() {
             cases += 1;
         }}}
     }
+    // circular swap: both implementations against the reference "the element at indices[k-1] moves to indices[k], cyclically", for
+    // every tuple of >= 2 distinct indices on lengths 2..=6
+    {
+        use crate::components::mutation::functional::{circular_swap, circular_swap2};
+        fn tuples(n: usize, k: usize, cur: &mut Vec<usize>, out: &mut Vec<Vec<usize>>) {
+            if cur.len() == k { out.push(cur.clone()); return }
+            for v in 0..n { if !cur.contains(&v) { cur.push(v); tuples(n, k, cur, out); cur.pop(); } }
+        }
+        for n in 2..=6usize { for k in 2..=n.min(4) {
+            let mut ts = Vec::new(); tuples(n, k, &mut Vec::new(), &mut ts);
+            for idx in ts {
+                let orig: Vec<u8> = (0..n as u8).map(|i| 10 + i).collect();
+                let (mut a, mut b, mut want) = (orig.clone(), orig.clone(), orig.clone());
+                circular_swap(&mut a, &idx);
+                circular_swap2(&mut b, &idx);
+                for j in 0..k { want[idx[j]] = orig[idx[(j + k - 1) % k]]; }
+                if a != b || a != want { eprintln!("COUNTEREXAMPLE circular swap on {orig:?} with indices {idx:?}: circular_swap {a:?}, circular_swap2 {b:?}, expected {want:?}"); panic!("the two circular-swap implementations disagree (or do not rotate the chosen positions)") }
+                cases += 1;
+            }
+        }}
+    }
     // cycle crossover: all pairs of permutations of length 1..=5
     fn perms(n: usize) -> Vec<Vec<u8>> {
         fn rec(cur: &mut Vec<u8>, n: usize, out: &mut Vec<Vec<u8>>) { if cur.len() == n { out.push(cur.clone()); return } for v in 0..n as u8 { if !cur.contains(&v) { cur.push(v); rec(cur, n, out); cur.pop(); } } }
